@@ -103,6 +103,9 @@ def check(chk, fx):
     # positions and extents are computed in integers that must not wrap (lexeme lengths, line / column)
     from .. import width
     width.check(chk, fx, classes=("LEN", "LINECOL"), minimum=10)
+    # the names printed in "Unexpected <term>" come from the term getters
+    from .. import termrules
+    termrules.termapi(chk, fx)
 
 
 def rep3(chk, fx, table, site):
